@@ -467,7 +467,7 @@ func Discharge(dir, name, decls string, assumptions []T, goal T, timeoutS int, a
 	if sliced, ok := sliceComprehensions(decls, assumptions, goal); ok {
 		sfile := filepath.Join(dir, sanitize(name)+".sliced.smt2")
 		if err := os.WriteFile(sfile, []byte(sliced), 0o644); err == nil {
-			r := solveFile(sfile, timeoutS, false)
+			r := solveFile(sfile, timeoutS, all)
 			if r.Verdict == "unsat" {
 				r.Solver += "(comprehension-sliced)"
 				return r
@@ -605,6 +605,11 @@ func solveFile(file string, timeoutS int, all bool) SolverResult {
 				cancel()
 				break
 			}
+			// agreement mode: give the other solvers a bounded grace period
+			go func() {
+				time.Sleep(10 * time.Second)
+				cancel()
+			}()
 		}
 		if best == nil && res.Output == "" && x.v != "error" {
 			res.Output = x.o
